@@ -32,6 +32,11 @@ FRONT = [
     "", "---\ntitle: T\n---\n", "---\na: [\n---\n", "---\na: *x\n---\n", "---\na: 2001-13-45\n---\n", "---\n- list\n---\n", "---\nmyst:\n  enable_extensions: [dollarmath, nope]\n---\n",
     "---\nmyst:\n  url_schemes: [http]\n---\n", "---\nmyst: 3\n---\n", "---\nmyst:\n  heading_anchors: \"\"\n  substitutions: {key: \"*v*\", key2: \"{{ key2 }}\"}\n---\n",
     "---\nhtml_meta:\n  a: b\nsubstitutions:\n  key: v\n---\n", "---\nmyst:\n  title_to_header: true\ntitle: \"{x}`y`\"\n---\n", "---\n", "---\n...\n",
+    # values of every YAML type, also the ones that are not JSON (binary, set, timestamps) and keys that are not strings
+    "---\na: !!binary aGVsbG8=\nb: !!set {x, y}\nc: [!!binary aGVsbG8=]\nd: 2001-01-01\n---\n", "---\n1: a\nnull: x\ntrue: y\n1.5: z\n? [a, b]\n: c\n---\n",
+    "---\nmyst:\n  html_meta: {1: x, a: 1}\n  substitutions: {1: x}\n  url_schemes: {http: {classes: 5}}\n  heading_anchors: true\n---\n",
+    "---\nauthor: [a, b]\nauthors: 1\ndate: 2020-01-01\nabstract: |\n  *x*\n\n  # h\ndedication: '```{note}\\nx\\n```'\n---\n",
+    "---\nmyst:\n  title_to_header: true\ntitle: 7\n---\n", "---\nmyst:\n  title_to_header: true\ntitle: [a]\n---\n",
 ]
 
 
